@@ -191,6 +191,9 @@ func c18PropBase(race bool) *pProp {
 				// thousand expressions (what such a call leaves behind in the package
 				// must not show in the others)
 				heavy := gp.G.NullableLoops() && r.chance(1, 3)
+				// the actions of this schedule change matched bytes where they stand
+				// (their own input, as far as they can know)
+				scribble := r.chance(1, 5)
 				var clients [][]parsersim.Call
 				for c := 0; c < nc; c++ {
 					var calls []parsersim.Call
@@ -210,6 +213,9 @@ func c18PropBase(race bool) *pProp {
 						plan.MaxEvents = 300
 						if r.chance(1, 3) {
 							plan.ErrPct = 25
+						}
+						if scribble {
+							plan.ScribblePct = 30
 						}
 						if r.chance(1, 8) {
 							plan.Faults = []kernel.Fault{{Site: 1 + r.intn(len(gp.G.Sites)+1), N: 1 + r.intn(2), Kind: []string{"panic-err", "panic-str"}[r.intn(2)]}}
@@ -277,7 +283,15 @@ func c18PropBase(race bool) *pProp {
 // runC18 runs the schedules without the race detector (fast, other oracles)
 // and then a second batch under the race build; the evidence of the two is
 // merged.
+// c18SoloEvery: every n-th schedule is compared with its calls made alone,
+// each in a fresh process of its own (a process per call: the thorough tier
+// has half a million schedules and samples them more thinly).
+var c18SoloEvery = 3
+
 func runC18(tier string) int {
+	if tier == "thorough" {
+		c18SoloEvery = 8
+	}
 	code1 := runParserProp(c18Prop(false), tier)
 	ev1 := readEvidence("C18")
 	code2 := runParserProp(c18Prop(true), tier)
@@ -301,7 +315,7 @@ func c18FreshSolo(pp *pProp, pw *parserWorld, reqs []*parsersim.Request, owner [
 	var idx []at
 	var solo []*parsersim.Request
 	for i, o := range outs {
-		if i%3 != 0 || o.Status != "ok" || len(o.Resp.Digests) == 0 {
+		if i%c18SoloEvery != 0 || o.Status != "ok" || len(o.Resp.Digests) == 0 {
 			continue
 		}
 		for ci := range reqs[i].Clients {
